@@ -33,6 +33,12 @@ pub fn engines() -> Vec<EngineDef> {
             scenario: crate::engine_heap::scenario,
         },
         EngineDef {
+            name: "session-sim",
+            property: "C17",
+            scenarios: crate::engine_session::scenarios,
+            scenario: crate::engine_session::scenario,
+        },
+        EngineDef {
             name: "gc-sim",
             property: "C03",
             scenarios: crate::engine_gc::scenarios,
